@@ -241,7 +241,8 @@ func ExportedService(svc string, snap []any) *pbpeerstream.ExportedService {
 				ns.Proxy = &pbservice.ConnectProxyConfig{DestinationServiceName: dest, DestinationServiceID: dest}
 			}
 			csn := &pbservice.CheckServiceNode{
-				Node:    &pbservice.Node{ID: string(nodeID(node)), Node: node, Address: Str(e["addr"]), Datacenter: "dc-remote"},
+				Node: &pbservice.Node{ID: string(nodeID(node)), Node: node, Address: Str(e["addr"]), Datacenter: "dc-remote",
+					Meta: map[string]string{"a": Str(e["addr"])}, TaggedAddresses: map[string]string{"lan": Str(e["addr"])}},
 				Service: ns,
 			}
 			for _, c0 := range List(e["nchk"]) {
